@@ -516,13 +516,14 @@ theorem step_sort {K : Keys} {W : Tx → Prop} {rank : TxId → Nat} {u0 : UT} {
   | submitNet t tr mf => exact submitNet_sort U mf s t tr h.chain h.good (hW t (by simp [Op.txs])) q
   | submitLocal t mf => exact submitLocal_sort U mf s t h.chain h.good (hW t (by simp [Op.txs])) q
   | block hh txs mf => exact blockMined_sort U mf s hh txs hW h.chain h.good h.inv ha q
-  | undo mf =>
+  | undo uh mf =>
     simp only [step]
     cases hd : disconnectUtxo s with
     | none => exact q
     | some p =>
       obtain ⟨s', txs⟩ := p
-      exact blockUndone_sort U mf s s' txs hd h.chain h.good h.inv (ha s' txs hd) q
+      exact SortInvP.lift (expire_env K _ _) (expire_sort K _ _)
+        (blockUndone_sort U mf s s' txs hd h.chain h.good h.inv (ha s' txs hd) q)
   | tip hh =>
     exact SortInvP.lift (s := s) (s' := { s with height := hh }) ⟨rfl, rfl, id⟩
       (fun x => x.same (SortSame.of_eq rfl rfl rfl rfl rfl)) q
